@@ -1439,25 +1439,7 @@ def check_file_guards(ctx: Ctx):
     T = ("param", "type")
 
     def decide(t_, type_given):
-        asg = {}
-        for x in walk(t_):
-            if x[0] == "call" and x[1][0] == "attr" and x[1][2] in ("exists", "is_file") and not x[2]:
-                asg[x] = True
-            elif x[0] == "call" and x[1][0] == "global" and x[1][1].endswith(":is_json"):
-                asg[x] = True
-            elif x[0] == "call" and x[1] in (("ext", "os.path.exists"), ("ext", "os.path.isfile")):
-                asg[x] = True
-            elif x[0] == "cmp" and x[1] in ("is", "isnot") and x[2] == T and x[3] == NONE:
-                asg[x] = (not type_given) == (x[1] == "is")
-            elif x[0] == "cmp" and x[1] in ("eq", "ne") and T in (x[2], x[3]):
-                asg[x] = x[1] == "eq"  # the requested type is the stored one
-            elif x[0] == "cmp" and x[1] in ("in", "notin") and x[2] == T and x[3][0] in ("tuple", "list", "set") and NONE in x[3][1] and len(x[3][1]) == 2:
-                asg[x] = x[1] == "in"  # `type in (None, stored type)`: no type requested, or the stored one
-            elif x[0] == "cmp" and x[1] in ("eq", "ne") and any(y[0] == "global" and y[1].endswith(":AOEF_VERSION") for y in (x[2], x[3])):
-                asg[x] = x[1] == "eq"
-            elif x[0] == "caught":
-                asg[x] = False
-        return truth(peval(t_, asg))
+        return truth(peval(t_, file_guard_assignments(t_, type_given)))
     okl = True
     for tg in (False, True):
         for r in s.raises:
@@ -1478,7 +1460,40 @@ def check_file_guards(ctx: Ctx):
             ctx.ok("R01.13", site, "an existing *.json file of the current version reaches to_soundevent; no own rejection is live for it")
         else:
             ctx.bad("R01.13", file, "load", "to_soundevent(...) not reached", "io.aoef.load does not reach the conversion for a file that was just saved", conv[0].lineno)
+    _check_save_guards(ctx)
+
+
+def file_guard_assignments(t_, type_given=None):
+    """what holds for a file that io.aoef.save has just written, as assignments of the atoms of a condition: it exists, it is a *.json
+    file, its version is the current one, its collection type is the requested one (type_given None: leave the `type is None` atoms)"""
+    T = ("param", "type")
+    if True:
+        asg = {}
+        for x in walk(t_):
+            if x[0] == "call" and x[1][0] == "attr" and x[1][2] in ("exists", "is_file") and not x[2]:
+                asg[x] = True
+            elif x[0] == "call" and x[1][0] == "global" and x[1][1].endswith(":is_json"):
+                asg[x] = True
+            elif x[0] == "call" and x[1] in (("ext", "os.path.exists"), ("ext", "os.path.isfile")):
+                asg[x] = True
+            elif x[0] == "cmp" and x[1] in ("is", "isnot") and x[2] == T and x[3] == NONE:
+                if type_given is not None:
+                    asg[x] = (not type_given) == (x[1] == "is")
+            elif x[0] == "cmp" and x[1] in ("eq", "ne") and T in (x[2], x[3]):
+                asg[x] = x[1] == "eq"  # the requested type is the stored one
+            elif x[0] == "cmp" and x[1] in ("in", "notin") and x[2] == T and x[3][0] in ("tuple", "list", "set") and NONE in x[3][1] and len(x[3][1]) == 2:
+                asg[x] = x[1] == "in"  # `type in (None, stored type)`: no type requested, or the stored one
+            elif x[0] == "cmp" and x[1] in ("eq", "ne") and any(y[0] == "global" and y[1].endswith(":AOEF_VERSION") for y in (x[2], x[3])):
+                asg[x] = x[1] == "eq"
+            elif x[0] == "caught":
+                asg[x] = False
+        return asg
+
+
+def _check_save_guards(ctx: Ctx):
+    from sa.peval import peval, truth
     s = ctx.summ.of_func(AOEF_PKG, "save")
+    file = s.module.relpath
     site = f"{file}:{s.node.lineno} save"
     mk = [e for e in s.calls if e.term[1][0] == "attr" and e.term[1][2] == "mkdir" or e.term[1] == ("ext", "os.makedirs")]
     for e in mk:
